@@ -62,10 +62,10 @@ package keeper
 //@   modifies trCount[layer(ctx)], trGas[layer(ctx)], trReceipt[layer(ctx)], trHasReceipt[layer(ctx)], kvHas[kvId(layer(ctx), payload(k.storeKey))], kvVal[kvId(layer(ctx), payload(k.storeKey))]
 //@   ensures[C13.setup_same_layer,C05.setup_same_layer] layer(newCtx) == layer(ctx) && hdr(newCtx) == hdr(ctx) && mode(newCtx) == mode(ctx) && newCtx.EventManager() == ctx.EventManager() && newCtx.BlockGasMeter() == ctx.BlockGasMeter()
 //@   ensures[C05.setup_gas_meter] typeof(newCtx.GasMeter()) == type(*evertypes.infiniteGasMeterWithLimit) && fresh(payload(newCtx.GasMeter())) && asptr(payload(newCtx.GasMeter()), type(*evertypes.infiniteGasMeterWithLimit)).limit == txGas(ethTx) && asptr(payload(newCtx.GasMeter()), type(*evertypes.infiniteGasMeterWithLimit)).consumed == 0
-//@   ensures[C13.setup_counter] trCount[layer(ctx)] == old(trCount[layer(ctx)]) + 1
+//@   ensures[C13.setup_counter,C20.setup_counter] trCount[layer(ctx)] == old(trCount[layer(ctx)]) + 1
 //@   ensures[C05.setup_gas_assume_failed,C13.setup_gas_assume_failed] trGas[layer(ctx)] == old(trGas[layer(ctx)])[old(trCount[layer(ctx)]) := txGas(ethTx)]
-//@   ensures[C13.setup_has_receipt] trHasReceipt[layer(ctx)] == old(trHasReceipt[layer(ctx)])[old(trCount[layer(ctx)]) := true]
+//@   ensures[C13.setup_has_receipt,C20.setup_has_receipt] trHasReceipt[layer(ctx)] == old(trHasReceipt[layer(ctx)])[old(trCount[layer(ctx)]) := true]
 //@   ensures[C13.setup_other_receipts_kept] trReceipt[layer(ctx)] == old(trReceipt[layer(ctx)])[old(trCount[layer(ctx)]) := trReceipt[layer(ctx)][old(trCount[layer(ctx)])]]
 //@   ensures[C13.setup_placeholder_receipt] exists bloom ethtypes.Bloom, lb ref, lo int :: trReceipt[layer(ctx)][old(trCount[layer(ctx)])] == rlpReceipt(txType(ethTx), 0, (sumTo(trLogs[layer(ctx)], max(1, trCount[layer(ctx)])) - 0) % pow2(64), bloom, lb, lo, 0)
-//@   ensures[C13.receipts_dense] (forall i int :: (0 <= i && i < old(trCount[layer(ctx)])) ==> old(trHasReceipt[layer(ctx)][i])) ==> (forall i int :: (0 <= i && i < trCount[layer(ctx)]) ==> trHasReceipt[layer(ctx)][i])
+//@   ensures[C13.receipts_dense,C20.receipts_dense] (forall i int :: (0 <= i && i < old(trCount[layer(ctx)])) ==> old(trHasReceipt[layer(ctx)][i])) ==> (forall i int :: (0 <= i && i < trCount[layer(ctx)]) ==> trHasReceipt[layer(ctx)][i])
 //@   panics never
